@@ -120,6 +120,11 @@ func CatalogueForms() []Form {
 		c("field_store_on_var_struct", "var q S2\nq.a = y + 2\nr = q.a + q.b"),
 		c("return_nil_pointer", "fn := func() *uint64 {\n\treturn nil\n}\nrb = fn() == nil"),
 		c("nil_field_init", "type NP struct {\n\tq *uint64\n}\nv := NP{q: nil}\nrb = v.q == nil"),
+		// string(n) of an integer is a one-rune string, not the decimal text
+		c("conv_string_of_u64", "rs = string(x%26 + 65)"),
+		c("conv_string_of_u32", "rs = string(w%26 + 97)"),
+		c("conv_string_of_u8", "rs = string(c%26 + 97)"),
+		c("conv_string_of_const", "rs = string(65)"),
 		// builtins with fewer or more arguments than the usual two
 		c("append_no_elems", "ys := append(xs)\nr = uint64(len(ys))"),
 		c("append_two_elems", "ys := append(xs, x, y)\nr = ys[3] + ys[4]*3 + uint64(len(ys))"),
